@@ -5,8 +5,6 @@
 //! + [Request styles](https://docs.aws.amazon.com/AmazonS3/latest/dev/RESTAPI.html#virtual-hosted-path-style-requests)
 //! + [Bucket naming rules](https://docs.aws.amazon.com/AmazonS3/latest/userguide/bucketnamingrules.html)
 
-use std::net::IpAddr;
-
 /// A path in the S3 storage
 #[derive(Debug, PartialEq, Eq)]
 pub enum S3Path {
@@ -134,7 +132,9 @@ pub fn check_bucket_name(name: &str) -> bool {
         return false;
     }
 
-    if name.parse::<IpAddr>().is_ok() {
+    // must not be formatted as an IP address: four dot-separated groups of digits,
+    // whether or not the strict address parser accepts them (`192.168.5.04`, `256.1.1.1`)
+    if name.split('.').count() == 4 && name.split('.').all(|g| g.bytes().all(|b| b.is_ascii_digit())) {
         return false;
     }
 
